@@ -10,9 +10,16 @@ for f in conf:
     if f == "known_findings.json":
         ours, theirs = json.loads(show(2, f)), json.loads(show(3, f))
         keys = {x["key"] for x in ours["findings"]}
+        try: base = {x["key"]: x for x in json.loads(show(1, f))["findings"]}
+        except Exception: base = {}
         for x in theirs["findings"]:
             if x["key"] not in keys:
                 ours["findings"].append(x); print("finding added:", x["key"])
+            else:
+                i = next(i for i, y in enumerate(ours["findings"]) if y["key"] == x["key"])
+                # changed on their side only -> take theirs
+                if ours["findings"][i] != x and base.get(x["key"]) == ours["findings"][i]:
+                    ours["findings"][i] = x; print("finding updated:", x["key"])
         json.dump(ours, open(os.path.join(ROOT, f), "w"), indent=1)
     elif f == "lean/Rooc.lean" or f == "MANIFEST.json":
         subprocess.run(["git", "checkout", "--ours", f], cwd=ROOT)
